@@ -6,6 +6,8 @@
 #include "vdrive.hpp"
 #include "base/netstring.hpp"
 #include "base/fifo.hpp"
+#include "base/stdiostream.hpp"
+#include "base/configobject.hpp"
 #include "base/json.hpp"
 #include "base/array.hpp"
 #include "base/dictionary.hpp"
@@ -22,6 +24,10 @@
 #include <sys/socket.h>
 #include <unistd.h>
 #include <sys/wait.h>
+#include <sys/time.h>
+#include <signal.h>
+#include <fstream>
+#include <sstream>
 #include <thread>
 #include <atomic>
 #include <cstring>
@@ -119,6 +125,150 @@ VOP(ns_frames) { }
 static struct NsCaseEnd {
 	NsCaseEnd() { RegisterCaseEnd([]() { l_Fifo = nullptr; l_Ctx.reset(); l_NsDead = false; }); }
 } l_NsCaseEnd;
+
+// ---------------------------------------------------------------------------------------------------------
+// buffered variant up to the END of the stream: the loop every production caller runs
+//     for (;;) { srs = ReadStringFromStream(...); if (srs == StatusEof) break; if (srs != StatusNewItem) continue; handle }
+// driven with a bound on the number of calls (a reader that never reports the end shows up as end=loop, not as a hang).
+// mode=chunk: a Stream that hands the scripted chunks to StreamReadContext::FillFromStream one per fill and then is at EOF;
+// mode=stdio: the real StdioStream over a std::istringstream; mode=file: the real StdioStream over a std::fstream of a
+// temporary file (what RestoreObjects / ReplayLog / the CLI list readers use).
+namespace {
+class ChunkStream final : public Stream
+{
+public:
+	explicit ChunkStream(std::vector<std::string> chunks) : m_Chunks(std::move(chunks)) { }
+	size_t Read(void *buffer, size_t count) override
+	{
+		if (m_Idx >= m_Chunks.size()) return 0;
+		const std::string& c = m_Chunks[m_Idx];
+		size_t n = std::min(count, c.size() - m_Off);
+		if (n && buffer) std::memcpy(buffer, c.data() + m_Off, n);
+		m_Off += n;
+		if (m_Off >= c.size()) { m_Idx++; m_Off = 0; }
+		return n;
+	}
+	void Write(const void *, size_t) override { throw std::runtime_error("read-only"); }
+	bool IsEof() const override { return m_Idx >= m_Chunks.size(); }
+private:
+	std::vector<std::string> m_Chunks;
+	size_t m_Idx = 0, m_Off = 0;
+};
+}
+
+static std::vector<std::string> SplitChunks(const std::string& hexlist);
+
+static std::string TempFileWith(const std::string& content)
+{
+	char path[] = "/tmp/vdrive-c20-XXXXXX";
+	int fd = mkstemp(path);
+	if (fd < 0) throw std::runtime_error("mkstemp");
+	size_t off = 0;
+	while (off < content.size()) {
+		ssize_t k = ::write(fd, content.data() + off, content.size() - off);
+		if (k <= 0) { ::close(fd); ::unlink(path); throw std::runtime_error("write"); }
+		off += (size_t)k;
+	}
+	::close(fd);
+	return path;
+}
+
+// ns_eof max=<n> mode=chunk|stdio|file <hex>[,<hex>...]
+VOP(ns_eof)
+{
+	long max = a.num("max", -1);
+	std::string mode = a.str("mode", "chunk");
+	std::vector<std::string> chunks = SplitChunks(a.pos.at(0));
+	std::string whole;
+	for (auto& c : chunks) whole += c;
+	Stream::Ptr stream;
+	std::stringstream iss;
+	std::fstream fp;
+	std::string path;
+	if (mode == "chunk") {
+		stream = new ChunkStream(chunks);
+	} else if (mode == "stdio") {
+		iss.str(whole);
+		stream = new StdioStream(&iss, false);
+	} else {
+		path = TempFileWith(whole);
+		fp.open(path.c_str(), std::ios_base::in | std::ios_base::binary);
+		stream = new StdioStream(&fp, false);
+	}
+	StreamReadContext ctx;
+	std::string items;
+	std::string end = "loop";
+	int sticky = -1;
+	// the theorem's bound for the model is |input| + |fills| + 1 calls; the harness is deliberately more generous
+	size_t bound = 4 * (whole.size() + chunks.size()) + 64;
+	try {
+		String message;
+		for (size_t calls = 0; calls < bound; calls++) {
+			StreamReadStatus srs = NetString::ReadStringFromStream(stream, &message, ctx, false, max);
+			if (srs == StatusEof) { end = "eof"; break; }
+			if (srs != StatusNewItem) continue;
+			if (!items.empty()) items += ",";
+			items += HexEnc(message.GetData());
+		}
+		if (end == "eof") {
+			sticky = 1;
+			size_t before = ctx.Size;
+			for (int k = 0; k < 3; k++) {
+				String m2;
+				if (NetString::ReadStringFromStream(stream, &m2, ctx, false, max) != StatusEof || ctx.Size != before) sticky = 0;
+			}
+		}
+	} catch (const std::exception&) {
+		end = "err";
+	}
+	if (!path.empty()) { fp.close(); ::unlink(path.c_str()); }
+	Out("ns_eof items=" + (items.empty() ? std::string(".") : items) + " end=" + end +
+		" size=" + (end == "eof" ? std::to_string(ctx.Size) : std::string("-")) +
+		" sticky=" + (sticky < 0 ? std::string("-") : std::to_string(sticky)));
+}
+
+// ns_restore <hex>: the production loop itself - ConfigObject::RestoreObjects on a file with this content, in a forked child
+// with a CPU-time limit (a loop that never sees StatusEof spins; the child is killed and "hang" is reported)
+VOP(ns_restore)
+{
+	std::string content = HexDec(a.pos.at(0));
+	std::string path = TempFileWith(content);
+	int pfd[2];
+	if (pipe(pfd) != 0) throw std::runtime_error("pipe");
+	pid_t pid = fork();
+	if (pid == 0) {
+		::close(pfd[0]);
+		struct itimerval tv;
+		std::memset(&tv, 0, sizeof tv);
+		tv.it_value.tv_sec = 2;
+		signal(SIGPROF, SIG_DFL);
+		setitimer(ITIMER_PROF, &tv, nullptr);
+		alarm(60);
+		std::string res;
+		try {
+			ConfigObject::RestoreObjects(path, FAState);
+			res = "done";
+		} catch (const std::exception&) {
+			res = "err";
+		}
+		(void)!write(pfd[1], res.data(), res.size());
+		_exit(0);
+	}
+	::close(pfd[1]);
+	char buf[64];
+	ssize_t k;
+	std::string got;
+	while ((k = read(pfd[0], buf, sizeof buf)) > 0) got.append(buf, k);
+	::close(pfd[0]);
+	int status = 0;
+	waitpid(pid, &status, 0);
+	::unlink(path.c_str());
+	std::string res;
+	if (WIFEXITED(status) && WEXITSTATUS(status) == 0 && !got.empty()) res = got;
+	else if (WIFSIGNALED(status) && (WTERMSIG(status) == SIGPROF || WTERMSIG(status) == SIGALRM)) res = "hang";
+	else res = "crash status=" + std::to_string(WIFSIGNALED(status) ? WTERMSIG(status) : -WEXITSTATUS(status));
+	Out("ns_restore " + res);
+}
 
 // ---------------------------------------------------------------------------------------------------------
 // stream variant over a real TLS session (AsioTlsStream is a concrete type; there is no way to call
